@@ -13,6 +13,16 @@ CHECKS = {
          "Every input of the enumerated/generated families is parsed by the real parser under recover with a per-lexer step budget; a panic, a budget overrun, (nil,nil) or an empty error is a violation. Exhaustive over all sequences of <=3 (quick) / <=4 (thorough) lexemes of a 60-lexeme vocabulary in 8 framings, plus token soup, corpus mutations and nesting ladders. Held-on-observed, not a proof: inputs outside the families are not covered.",
          "Trusted: Go runtime recover semantics; H1 budget constant (64*len+4096 steps) is large enough never to fire on a terminating parse; the harness' own generators.",
          "DESIGN.md §5 C03"),
+ "C04": ("exploration",
+         "runtime monitor: exhaustive value-kind matrices rendered by the real engine under recover (panic oracle), checkptr build; process-fatal errors caught via per-case journal",
+         "Every cell of the operator / index read / index write / member / iterable / callee x argument / user-function arity / built-in helper x argument matrices over a 55-kind value pool is rendered with a fresh context; any panic is a violation, an error must come with empty output. Matrices are enumerated completely; random well-formed programs with pool leaves on top. Says nothing about value kinds or helper signatures outside the pool.",
+         "Trusted: fixture methods/helpers are total; recover() catches all engine panics (fatal runtime errors are caught by the supervisor instead).",
+         "DESIGN.md §5 C04"),
+ "C02": ("exploration",
+         "runtime monitor: reference literal-text scanner + constructive expected-output model compared byte for byte with the engine's output",
+         "G2 enumerates every tag-free string up to length 6/8 over a 9-symbol alphabet and compares the render with a reference scanner for the two escapes; G1 builds templates from segment lists whose expected output is known by construction (text, <%= %> values incl. arbitrary string literals, silent tags, comments, nested in if/else/for/fn/helper/contentFor blocks). Byte equality and err==nil are required. Exhaustive for G2 within its bound; G1 is random sampling.",
+         "Trusted: the 30-line reference scanner and the generator's bookkeeping of expected output; abstentions listed in evidence assumptions.",
+         "DESIGN.md §5 C02"),
 }
 NOT_YET = "check not built yet in this round (see DESIGN.md §5 for the planned monitor)"
 
